@@ -615,6 +615,21 @@ def binop(ip, st, op, a, b):
     if isinstance(op, ast.Mult) and {ka, kb} == {"int", "str"}:
         yield st, opaque_str("repeat")          # "-" * n (console decoration)
         return
+    if isinstance(op, ast.Mult) and {ka, kb} == {"int", "pylist"}:
+        # [c] * n with a symbolic count: a fresh list r with len(r) == max(n, 0) and every element == c
+        lst, cnt = (a, b) if ka == "pylist" else (b, a)
+        items = pylist_items(st, lst)
+        if len(items) == 1 and kind_of(items[0]) in ("int", "str", "bytes"):
+            k = kind_of(items[0])
+            r = Sym(("list", k), tm.Fresh("repeat", kind_sort(("list", k))))
+            n = to_term(cnt)
+            st.assume(tm.Eq(tm.Len(r.term), tm.Max(n, tm.Int(0))), axiom=True)
+            q = tm.BoundVar(tm.fresh_name("rk"), INT)
+            st.assume(tm.ForAll([q], tm.Implies(tm.And(tm.Le(tm.Int(0), q), tm.Lt(q, tm.Len(r.term))),
+                                                tm.Eq(tm.Nth(r.term, q), to_term(items[0])))), axiom=True)
+            yield st, r
+            return
+        raise Unsupported("list * symbolic int for a list that is not a single scalar")
     if isinstance(op, ast.Mult) and {ka, kb} == {"int", "bytes"} and not is_sym(a if ka == "bytes" else b):
         raise Unsupported("bytes * symbolic int")
     raise Unsupported("binop %s on %s, %s" % (type(op).__name__, ka, kb))
